@@ -204,6 +204,15 @@ def run(chk):
                     c = c[2]
                 if isinstance(c, tuple) and c and c[0] != "edge" and (closure_calls(prog, c, VALID) or desc_contains(c, lambda y: y[0] == "call" and core.re.search(VALID, y[1]) is not None)) and not pol:
                     ok = True
+            if not ok:
+                # the verdict travels through a value (`SessionState::of(..) == Live`, a flag): on the product store, once valid() has
+                # answered true no store is reachable
+                from .. import absreach
+                vcalls = [(vb, vt) for vb, vt in b.calls_to(VALID) if vt.get("dest") and not vt["dest"]["p"] and vt.get("target") is not None]
+                st_ = absreach.Store(b, prog)
+                if vcalls and all(vt["dest"]["l"] in st_.flags for vb, vt in vcalls):
+                    ok = all(blk not in absreach.feasible_from(b, [vt["target"]], prog, init={("flag", vt["dest"]["l"]): True}) for vb, vt in vcalls) and \
+                        all(blk in b.reachable([vt["target"]]) or True for vb, vt in vcalls)
             chk.ob("R3.one_session", fn, "a new session is stored only when the existing session is not valid", ok,
                    "a second live session can be created for a user whose current session is still valid", where=b.where(blk))
             u = describe(prog, b, t["args"][1])
@@ -309,6 +318,12 @@ def run(chk):
     chk.floor("Session::valid", 1 if vb else 0, 1)
     if vb:
         d = describe(prog, vb, 0)
+        # `now.cmp(&expiry) == Ordering::Less` is `now < expiry` (and `== Greater` is `>`): read it as the comparison it spells
+        if d[0] == "call" and core.re.search(r"cmp::Ordering as std::cmp::PartialEq>::(eq|ne)$", d[1]) and len(d[2]) == 2:
+            cm = [x for x in d[2] if isinstance(x, tuple) and x[0] == "call" and core.re.search(r"cmp::(Ord|PartialOrd)( for [\w:]+)?>?::cmp$|::cmp$", x[1]) and len(x[2]) == 2]
+            ov = [x for x in d[2] if isinstance(x, tuple) and x[0] == "variant" and x[1].endswith("cmp::Ordering")]
+            if len(cm) == 1 and len(ov) == 1 and d[1].endswith("::eq") and ov[0][2] in ("Less", "Greater"):
+                d = ("bin", "Lt" if ov[0][2] == "Less" else "Gt", cm[0][2][0], cm[0][2][1])
         ei = 1
         ok = d[0] == "bin" and ((d[1] == "Lt" and desc_contains(d[2], is_epoch_now) and desc_contains(d[3], lambda y: y[0] == "field") and not desc_contains(d[3], is_epoch_now)) or
                                 (d[1] == "Gt" and desc_contains(d[3], is_epoch_now) and desc_contains(d[2], lambda y: y[0] == "field") and not desc_contains(d[2], is_epoch_now)))
